@@ -1,4 +1,4 @@
-import Ring
+import Snap
 
 def parseInts (ws : List String) : Array Int := (ws.filterMap String.toInt?).toArray
 def toPts (a : Array Int) : Array P := Id.run do
@@ -21,6 +21,28 @@ def handle (line : String) : String :=
     let ring := toPts (xs.extract (2 * nf) xs.size)
     match cleanupNewRing ring (o == "1") (fun p => flags.contains p) with
     | .ok s => s!"ok O{showRings s.outers} I{showRings s.inners} PL{showRings s.pointsAndLines}"
+    | .error e => "panic " ++ e
+  | "snap" :: rest =>
+    let xs := parseInts rest
+    -- depth minX minY res keep reverse nlev levels... nrings (n x y ...)*
+    let g : Grid := ⟨xs[1]!, xs[2]!, xs[3]!, xs[0]!.toNat⟩
+    let cfg : Config := ⟨xs[4]! == 1, xs[5]! == 1⟩
+    let nlev := xs[6]!.toNat
+    let levels := ((xs.extract 7 (7 + nlev)).toList.map Int.toNat)
+    let nr := xs[7 + nlev]!.toNat
+    let (rings, _) := Id.run do
+      let mut pos := 8 + nlev
+      let mut rings : Array (Array Pt) := #[]
+      for _ in [0 : nr] do
+        let n := xs[pos]!.toNat
+        rings := rings.push (toPts (xs.extract (pos + 1) (pos + 1 + 2 * n)))
+        pos := pos + 1 + 2 * n
+      return (rings, pos)
+    match snapPolygon g rings levels cfg with
+    | .ok res =>
+      let sorted := res.toArray.qsort (fun a b => a.1 < b.1)
+      "ok " ++ " ".intercalate (sorted.toList.map fun (l, polys) =>
+        s!"L{l}:[" ++ ";".intercalate (polys.toList.map fun pg => "|".intercalate (pg.toList.map showRing)) ++ "]")
     | .error e => "panic " ++ e
   | _ => "bad-op"
 
